@@ -1,5 +1,6 @@
 import Tmv.Lemmas.Sign
 import Tmv.Lemmas.SignNode
+import Tmv.Lemmas.SignCons
 /-! # C04 — no crash or restart can make a validator sign conflicting messages
 
 Model: `Tmv.Sign` (`privval/file.go` FilePV + `libs/tempfile.WriteFileAtomic` as a micro-step
@@ -214,6 +215,42 @@ theorem replay_not_refused_partial {S I : Type} (k : SignNode.Core S I) (ins : L
   rw [hst']
   exact repeat_reuses sigOf l hl es hidle (SignNode.stamp t' q) st sb lsb lsig
     (by rw [SignNode.reqStep_stamp]; exact hst) hsb hdisk hdsig hts
+
+/-! ### composition with the consensus model (C02's `Tmv.Cons`) and the WAL (C15) -/
+
+/-- **The property, composed.** `Node04` = the consensus state machine of one height (`Cons.step`,
+any configuration: validators, powers, proposer schedule, block validity, what
+`createProposalBlock` yields), the real signer machine and the WAL at record level. For EVERY
+event list — inputs of any kind, and crashes
+* between two inputs (`crash`),
+* while an input is handled: after `j` complete signer calls and `k` micro-steps into the next
+  (`crashInInput`; k = 1..4 before the sign-state rename, 5 after it and before the signature is
+  returned = before the own message reaches the WAL),
+* while a surviving record is replayed (`crashInReplay`), any number of crashes in a row,
+each with ANY number `keep` of surviving unsynced WAL records (C15: the survivors are whole records,
+a prefix of the written ones, containing every synced one) —
+two signatures the key released for one height/round/step are over the same message: same block, and
+the later one is the earlier one reused (same timestamp and signature). Nothing is assumed about
+the consensus model, the WAL or the replay: the signer alone enforces it. -/
+theorem no_conflicting_signatures_across_crashes (e : Node04.Env) (c : Cons.Cfg) (sigOf : SB → Sig)
+    (l : LSS Sig) (hl : WF l) (evs : List Node04.Ev)
+    (e1 e2 : Rel Sig) (h1 : e1 ∈ (Node04.run e c sigOf (Node04.start l) evs).sg.rel)
+    (h2 : e2 ∈ (Node04.run e c sigOf (Node04.start l) evs).sg.rel) (hh : hrsOf e1.sb = hrsOf e2.sb) :
+    e1.sb = e2.sb ∧ e1.sig = e2.sig ∧ e1.sb.bid = e2.sb.bid ∧ e1.req.bid = e2.req.bid ∧
+      eqModTs e1.req e2.req = true := by
+  obtain ⟨es, hes⟩ := Node04.run_sg_run e c sigOf (Node04.start l) evs
+  rw [hes] at h1 h2
+  exact released_consistent sigOf l hl es e1 e2 h1 h2 hh
+
+/-- the state file dominates everything released, in the composed system too (so what replay asks
+again at or below it is refused or answered from the file: `replay_requests_match`) -/
+theorem composed_disk_dominates (e : Node04.Env) (c : Cons.Cfg) (sigOf : SB → Sig)
+    (l : LSS Sig) (hl : WF l) (evs : List Node04.Ev) (r : Rel Sig)
+    (hr : r ∈ (Node04.run e c sigOf (Node04.start l) evs).sg.rel) :
+    hrsLe (hrsOf r.sb) (lssHRS (Node04.run e c sigOf (Node04.start l) evs).sg.disk) := by
+  obtain ⟨es, hes⟩ := Node04.run_sg_run e c sigOf (Node04.start l) evs
+  rw [hes] at hr ⊢
+  exact (disk_dominates_released sigOf l hl es r hr).1
 
 /-! ### the driver's `call` (one op line) is a run of the machine, so every op-line history the
 correspondence stream exercises is covered by the theorems above -/
